@@ -3,8 +3,9 @@
    LabelJson.v (label sets), SeriesIndex.v (request histories), Dates.v (days and time zones). *)
 From Coq Require Import List ZArith Bool String Permutation.
 From Qryn Require Import model.GoQuote model.LabelJson model.Fingerprint model.Labels
-  model.SeriesIndex model.Dates model.CacheKey model.ProtoLabels model.SeriesDoc
-  proofs.FingerprintProofs proofs.FingerprintInjProofs proofs.LabelsProofs proofs.JsonQuoteProofs proofs.ProtoLabelsProofs proofs.SeriesIndexProofs proofs.DiscoverProofs proofs.DatesProofs proofs.CacheKeyProofs.
+  model.SeriesIndex model.Dates model.CacheKey model.GoJson model.DdTags model.ProtoLabels model.SeriesDoc
+  proofs.FingerprintProofs proofs.FingerprintInjProofs proofs.LabelsProofs proofs.JsonQuoteProofs proofs.LabelDocReaderProofs proofs.ProtoLabelsProofs proofs.DdTagsProofs proofs.ProtoGuardProofs proofs.SeriesIndexProofs proofs.DiscoverProofs proofs.DiscoverWindowProofs proofs.DatesProofs proofs.CacheKeyProofs.
+From Qryn Require model.Scans model.LogqlPlan model.SqlEval.
 Import ListNotations.
 Open Scope Z_scope.
 
@@ -40,6 +41,23 @@ Theorem fingerprint_wire_order_independent_cityhash_and_bernstein : forall ch64 
 Proof. exact wire_fp_reorder_both. Qed.
 Print Assumptions fingerprint_wire_order_independent_cityhash_and_bernstein.
 
+(* Datadog logs, at the level of the TEXT of the ddtags member (model/DdTags.v: the walk of the regular expression
+   tagPattern as FindAllStringSubmatch performs it; \p{L} above U+007F is an oracle; tied to the code on generated texts with
+   junk, non-ASCII letters and ill-formed bytes): on a text that is a comma-separated list of well-formed ASCII tags (name: a
+   letter, then letters digits _ - . \ /; value: at least one of those or ':') the expression returns exactly those tags ... *)
+Theorem ddtags_expression_returns_the_tags : forall letter_hi tags,
+  forallb (wf_tag letter_hi) tags = true -> dd_tags letter_hi (tags_text tags) = tags.
+Proof. exact dd_tags_of_tags_text. Qed.
+Print Assumptions ddtags_expression_returns_the_tags.
+
+(* ... hence two requests whose ddtags texts list the same tags in another order get the same fingerprint *)
+Theorem fingerprint_ddtags_text_order_independent : forall ch64 h128 fin letter_hi ttl_hdr t1 t2 source service hostname source_type,
+  forallb (wf_tag letter_hi) t1 = true -> Permutation t1 t2 ->
+  wire_fp ch64 h128 fin ttl_hdr (WDatadogLogs (dd_tags letter_hi (tags_text t1)) source service hostname source_type) =
+  wire_fp ch64 h128 fin ttl_hdr (WDatadogLogs (dd_tags letter_hi (tags_text t2)) source service hostname source_type).
+Proof. exact ddtags_text_order_independent. Qed.
+Print Assumptions fingerprint_ddtags_text_order_independent.
+
 (* ... and across protocols the fingerprint is a function of the label multiset the decoder hands to onEntries *)
 Theorem fingerprint_depends_on_label_multiset_only : forall ch64 h128 fin ttl_hdr w1 w2,
   Permutation (wire_labels w1) (wire_labels w2) -> wire_fp ch64 h128 fin ttl_hdr w1 = wire_fp ch64 h128 fin ttl_hdr w2.
@@ -63,6 +81,31 @@ Theorem fingerprint_protocol_independent_refuted_for_unsanitizing_decoders :
   wire_fp (tbl_ch64 real_tbl) hash128to64 fin_djb 0 w_dd <> wire_fp (tbl_ch64 real_tbl) hash128to64 fin_djb 0 w_loki.
 Proof. exact unsanitizing_decoder_splits_series. Qed.
 Print Assumptions fingerprint_protocol_independent_refuted_for_unsanitizing_decoders.
+
+(* (a2-iii) OUTSIDE the two recorded finding classes the statement of the property holds as written: the fingerprint
+   depends only on the SET of sanitized pairs (wire_set: the sanitized pairs of the list the decoder builds, control label
+   removed) - not on the protocol (any two of the twelve wire forms), not on the wire / Go-map order, not on the request
+   (TTL header or none), for every choice of the hash oracles (hence both fingerprint types). The guard is boolean:
+   outside_findings hdr w = the request is not one of a decoder that skips sanitizeLabels whose labels sanitizeLabels would
+   change (in_unsanitized_class), and it does not carry both a TTL header and the control label (in_ttl_class). The check
+   evaluates the same two class predicates on every generated request: an observed dependence inside a class is reported
+   as the KNOWN-FINDING, outside it as a VIOLATION. *)
+Theorem fingerprint_depends_on_sanitized_set_only_partial : forall ch64 h128 fin hdr1 hdr2 w1 w2,
+  outside_findings hdr1 w1 = true -> outside_findings hdr2 w2 = true ->
+  Permutation (wire_set w1) (wire_set w2) ->
+  wire_fp ch64 h128 fin hdr1 w1 = wire_fp ch64 h128 fin hdr2 w2.
+Proof. exact fp_depends_on_sanitized_set_only. Qed.
+Print Assumptions fingerprint_depends_on_sanitized_set_only_partial.
+
+(* ... and the second guard is needed too (open finding ttl-label-kept-with-ttl-header, real city.CH64 values): the Loki
+   push of {app="v", __ttl_days__="5"} denotes the set {app="v"}, is outside both classes without a TTL header, inside the
+   TTL class with one, and gets two different fingerprints of either type. *)
+Theorem fingerprint_request_independent_refuted_for_ttl_label :
+  wire_set w_ttl = [("app", "v")]%string /\ in_ttl_class 7 w_ttl = true /\ outside_findings 0 w_ttl = true /\
+  wire_fp (tbl_ch64 real_tbl) hash128to64 fin24 0 w_ttl <> wire_fp (tbl_ch64 real_tbl) hash128to64 fin24 7 w_ttl /\
+  wire_fp (tbl_ch64 real_tbl) hash128to64 fin_djb 0 w_ttl <> wire_fp (tbl_ch64 real_tbl) hash128to64 fin_djb 7 w_ttl.
+Proof. exact ttl_header_splits_series. Qed.
+Print Assumptions fingerprint_request_independent_refuted_for_ttl_label.
 
 (* (a3) CONDITIONAL. Different label multisets get different fingerprints on any family F of label
    lists on which the accumulation (sum, xor, product of pair hashes) and the final hash are
@@ -161,6 +204,24 @@ Theorem label_document_roundtrip_valid_utf8 : forall isprint ls,
 Proof. exact label_document_roundtrip_valid. Qed.
 Print Assumptions label_document_roundtrip_valid_utf8.
 
+(* (a4-SQL) The DECODE side as the read path has it. In SQL the reader makes a Map of the stored text with
+   JSONExtractKeysAndValues(labels, 'String'); the SQL semantics of C07 / C08 / C17 (model/SqlEval.v labels_map_raw, label_of)
+   represent the text by its key/value list and read a label with label_of (first member of that name, '' when absent).
+   sql_reader_view_ok doc ls = the text is a JSON object of STRING members only (json_decode accepts nothing else) with
+   pairwise DISTINCT keys, and label_of reads every label of ls and '' for every other name. It holds of the document
+   written for every label list whose names stay distinct after sanitisation (the property's quantifier) - for the sanitizing
+   protocols and for the decoders that do not sanitize (valid UTF-8). In Go (/series since d82d164: storedLabels) the check
+   runs the real function on every generated document. *)
+Theorem label_document_meets_sql_reader : forall isprint raw,
+  NoDup (map fst (sanitize raw)) -> sql_reader_view_ok (encode_labels isprint (sanitize raw)) (sanitize raw).
+Proof. exact stored_document_meets_sql_reader. Qed.
+Print Assumptions label_document_meets_sql_reader.
+
+Theorem label_document_meets_sql_reader_valid_utf8 : forall isprint ls,
+  forallb label_valid ls = true -> NoDup (map fst ls) -> sql_reader_view_ok (encode_labels isprint ls) ls.
+Proof. exact stored_document_meets_sql_reader_valid. Qed.
+Print Assumptions label_document_meets_sql_reader_valid_utf8.
+
 (* The repair changes no stored text that was readable: wherever strconv.Quote wrote JSON for the label list
    (the exact class below) the new quoter writes the same bytes. *)
 Theorem label_document_text_unchanged : forall isprint ls,
@@ -226,7 +287,7 @@ Print Assumptions inserted_rows_come_from_streams.
    (the hypothesis of (a3)), an acknowledged sample of a stream with labels L has a successfully inserted series row of
    its day and type, written for a stream whose labels are L up to order, and the labels text of that stream is JSON
    decoding to exactly its labels: acknowledged data is discoverable by its labels. *)
-Theorem acked_sample_is_discoverable : forall (fp_of : list label -> Z) (h : list laction),
+Theorem acked_sample_row_carries_its_labels : forall (fp_of : list label -> Z) (h : list laction),
   (forall s1 s2, In s1 (lstreams h) -> In s2 (lstreams h) ->
      fp_of (ls_labels s1) = fp_of (ls_labels s2) -> Permutation (ls_labels s1) (ls_labels s2)) ->
   forall s0 d t, In s0 (lstreams h) -> In (fp_of (ls_labels s0), d, t) (acked (lrun fp_of h)) ->
@@ -235,6 +296,29 @@ Theorem acked_sample_is_discoverable : forall (fp_of : list label -> Z) (h : lis
             Permutation (ls_labels s0) (ls_labels s) /\
             forall isprint, json_decode (encode_labels isprint (ls_labels s)) = Some (ls_labels s).
 Proof. exact acked_sample_discoverable. Qed.
+Print Assumptions acked_sample_row_carries_its_labels.
+
+(* END TO END, WITH THE DAY THE READ SIDE SEARCHES. A sample e of a stream with labels L, acknowledged in any history
+   (as above), pushed through a writer process in ANY time zone tz, and ANY reader window [from, to) (ns) containing the
+   sample's timestamp: the row exists under the value d the writer puts into the date column (Dates.series_day, tied to the
+   code over 32 zones), d passes every date bound the reader writes for the window - date >= day(from),
+   date >= FormatFromDate(from), date <= day(to) - and the row was written for a stream with the labels L up to order
+   whose labels text decodes to them. The date part is C13's lemma (props/C13.index_date_range_covers_window =
+   proofs/ScansProofs.attrs_day_in_bounds) applied to C04's writer model: no date assumption is left. *)
+Theorem acked_sample_is_discoverable : forall (fp_of : list label -> Z) (h : list laction),
+  (forall s1 s2, In s1 (lstreams h) -> In s2 (lstreams h) ->
+     fp_of (ls_labels s1) = fp_of (ls_labels s2) -> Permutation (ls_labels s1) (ls_labels s2)) ->
+  forall s0 e tz from to, In s0 (lstreams h) -> In e (ls_entries s0) ->
+  0 <= e_ts e -> e_ts e < 65536 * 86400 * 1000000000 ->
+  In (fp_of (ls_labels s0), day_of (e_ts e), tcode (e_type e)) (acked (lrun fp_of h)) ->
+  from <= e_ts e < to ->
+  let d := series_day tz (e_ts e) in
+  In (d, fp_of (ls_labels s0), tcode (e_type e)) (ts_rows (lrun fp_of h)) /\
+  (Scans.day_of_ns from <= d <= Scans.day_of_ns to /\ LogqlPlan.from_day from <= d) /\
+  exists s, In s (lstreams h) /\ from_stream (to_stream fp_of s) (d, fp_of (ls_labels s0), tcode (e_type e)) /\
+            Permutation (ls_labels s0) (ls_labels s) /\
+            forall isprint, json_decode (encode_labels isprint (ls_labels s)) = Some (ls_labels s).
+Proof. exact acked_sample_discoverable_in_window. Qed.
 Print Assumptions acked_sample_is_discoverable.
 
 (* What was wrong (run_old = the entry made at parse time): a failed series insert, or a body malformed
